@@ -1208,10 +1208,12 @@ def _make_builtin_module(it, full):
     elif full in ('os', 'os.path'):
         pathmod = BuiltinModule('os.path', {})
         for n in ('realpath', 'join', 'exists', 'isfile', 'isdir', 'abspath', 'dirname', 'basename',
-                  'splitext', 'expanduser', 'normpath'):
+                  'splitext', 'expanduser', 'normpath', 'commonprefix', 'commonpath', 'islink', 'relpath',
+                  'samefile', 'isabs', 'lexists', 'split'):
             pathmod.attrs[n] = Builtin('os.path.' + n, (lambda nm: lambda it2, a, k: _lib_call(it2, 'os.path.' + nm, a, k))(n))
         if full == 'os.path':
             return pathmod
+        pathmod.attrs['sep'] = '/'
         A['path'] = pathmod
         A['sep'] = '/'
         A['environ'] = Opaque('os.environ')
